@@ -4,6 +4,7 @@ Line protocol shared by the driver streams: textual encodings of raw values.
   BigRat  : `<+|-><BigUint>/<BigUint>`
 -/
 import FendModel.Model.BigUint
+import FendModel.Model.BigRat
 
 namespace Fend.Proto
 open Fend
@@ -21,6 +22,20 @@ def parseUint (s : String) : Option BigUint :=
 def showUint : BigUint → String
   | .small n => s!"S{n}"
   | .large v => "L" ++ ",".intercalate (v.map toString)
+
+def parseRat (s : String) : Option BigRat :=
+  match s.toList with
+  | sg :: rest =>
+    if sg ≠ '+' ∧ sg ≠ '-' then none else
+    match (String.ofList rest).splitOn "/" with
+    | [n, d] => match parseUint n, parseUint d with
+      | some n, some d => some ⟨sg == '-', n, d⟩
+      | _, _ => none
+    | _ => none
+  | _ => none
+
+def showRat (q : BigRat) : String :=
+  (if q.neg then "-" else "+") ++ showUint q.num ++ "/" ++ showUint q.den
 
 def showR {α} (f : α → String) : R α → String
   | .ok a => "ok " ++ f a
